@@ -376,7 +376,7 @@ def run_post_hoc(w) -> None:
 
 def run(w) -> None:
     install_hook()
-    for meta, spec in c04.specs(w, avoid_copy_shadow=True):
+    for meta, spec in c04.specs(w):
         w.count("programs")
         run_spec(w, spec, meta)
     if w.shard == 0:
